@@ -90,6 +90,18 @@ class Track(object):
             return True
         return False
 
+    def has_room(self, duration=4):
+        """Return True when add_notes would find room for an entry of this
+        duration: in the last Bar, or in a new one when that is full."""
+        if len(self.bars) == 0:
+            probe = Bar()
+        else:
+            probe = Bar(self.bars[-1].key, self.bars[-1].meter)
+            if not self.bars[-1].is_full():
+                # a stand-in with the same entries: the track is not touched
+                probe.bar = list(self.bars[-1].bar)
+        return bool(probe.place_notes(None, duration))
+
     def check_range(self, note):
         """Raise an InstrumentRangeError if an Instrument is attached to the
         Track and the note (Note, string or NoteContainer) is not within its
